@@ -26,6 +26,8 @@ func checkC08(c *Ctx) {
 	c.rule("C08.g", "a session registers with the mailbox tracker inside the critical section that takes its EXISTS snapshot", 2)
 	c.rule("C08.h", "tracker queue: writer and sequence-number translation agree on one entry per update", 2)
 	c.rule("C08.i", "mailbox-view and client-view sequence numbers are not mixed (tracker Queue* arguments, SeqSet probes)", 5)
+	c.rule("C08.j", "removals of one pass are announced in descending index order or renumbered", 1)
+	c.rule("C08.k", "the live tracker queue never aliases the updates handed to the writer", 3)
 	c.rule("C08.L", "layering lemma", 1)
 	cut := layeringCut(c, "C08.L")
 	g := buildModGraph(p, p.VTA(), nil)
@@ -102,6 +104,10 @@ func checkC08(c *Ctx) {
 	ruleRegistrationAtomic(c, "C08.g", la)
 	ruleQueueEncoding(c, "C08.h")
 	ruleNumberViews(c, "C08.i")
+	ruleExpungeOrder(c, "C08.j")
+	ruleQueueHandOver(c, "C08.k")
+	c.rule("C08.l", "an index sentinel (-1 until a loop finds a position) is tested only by comparisons that separate -1 from every index", 1)
+	ruleSentinelTests(c, "C08.l", "imapserver", "imapserver/imapmemserver")
 	// expungeLocked: per removed message exactly one QueueExpunge: the call and the "keep" append are the two arms of one test
 	if ex := p.Func("imapserver/imapmemserver", "Mailbox", "expungeLocked"); ex != nil {
 		okArms := false
@@ -580,6 +586,12 @@ func checkC09(c *Ctx) {
 	ruleNumberViews(c, "C09.f")
 	c.rule("C09.g", "COPYUID: source set fed from the source messages' uid, destination set from the append's reported UID", 4)
 	ruleCopyUIDProvenance(c, "C09.g")
+	c.rule("C09.h", "recursive walks of a SearchCriteria descend into Not and Or alike", 2)
+	ruleRecursiveCriteriaCoverage(c, "C09.h")
+	c.rule("C09.i", "removals of one pass are announced in descending index order or renumbered", 1)
+	ruleExpungeOrder(c, "C09.i")
+	c.rule("C09.j", "a per-round verdict that a loop overwrites is branched on before the next round (LIST: a mailbox matching any pattern is listed)", 1)
+	ruleOverwrittenVerdict(c, "C09.j", "imapserver", "imapserver/imapmemserver")
 }
 
 // ruleNamespaceKeys: C09.e. Every insertion into User.mailboxes uses, as
